@@ -107,27 +107,38 @@ def run(pid):
         for nq, ss in bynq.items():
             for k in range(0, len(ss), 40):
                 jobs.append({"prop": pid, "nq": nq, "strings": ss[k:k + 40]})
-        cases = [c for r in run_jobs(job, jobs) for c in r]
-        for k, c in enumerate(cases):
-            c["id"] = k
-        vlog("executed", len(cases))
-        verdicts, stats = tlc.run_cases("Trace_Gates", cases, sc, env={"PROP": pid}, timeout=2400, heap="4g")
-    vst, nontriv, clauses, conf = {}, 0, {}, {}
-    for c in cases:
-        v = verdicts[c["id"]]
-        vst[v[0]] = vst.get(v[0], 0) + 1
-        if pid == "C11" and v[0] == "ok":
-            conf[v[1]] = conf.get(v[1], 0) + 1
-        if v[0] == "ok" and v[2] > 0:
-            nontriv += 1
-        if v[0] == "fail":
-            clauses[v[1]] = clauses.get(v[1], 0) + 1
-            rep.fail({k: c[k] for k in c if k not in ("id",)}, v[1], f"at={v[2]} nq={c['nq']} circuit=[{c['key']}] {c['exc']}",
-                     key=f"{c['nq']}:{c['key']}", triggers=triggers_of(pid, c, v))
+        # in batches, so that the recorded circuits of the thorough tier never sit in memory all at once
+        vst, nontriv, clauses, conf = {}, 0, {}, {}
+        stats = {"distinct": 0, "generated": 0}
+        ncases, samples, nid = 0, [], 0
+        B = 150   # jobs (of 40 strings) per batch
+        for b0 in range(0, len(jobs), B):
+            cases = [c for r in run_jobs(job, jobs[b0:b0 + B]) for c in r]
+            for c in cases:
+                c["id"] = nid
+                nid += 1
+            verdicts, st = tlc.run_cases("Trace_Gates", cases, sc, env={"PROP": pid}, timeout=2400, heap="4g")
+            for k in stats:
+                stats[k] += st[k]
+            ncases += len(cases)
+            for c in cases:
+                v = verdicts[c["id"]]
+                vst[v[0]] = vst.get(v[0], 0) + 1
+                if pid == "C11" and v[0] == "ok":
+                    conf[v[1]] = conf.get(v[1], 0) + 1
+                if v[0] == "ok" and v[2] > 0:
+                    nontriv += 1
+                if v[0] == "fail":
+                    clauses[v[1]] = clauses.get(v[1], 0) + 1
+                    rep.fail({k: c[k] for k in c if k not in ("id",)}, v[1], f"at={v[2]} nq={c['nq']} circuit=[{c['key']}] {c['exc']}",
+                             key=f"{c['nq']}:{c['key']}", triggers=triggers_of(pid, c, v))
+            samples += [{"circuit": c["key"], "nq": c["nq"], "verdict": verdicts[c["id"]]} for c in cases[:: max(1, len(cases) // 2)][:2]]
+            vlog("batch", b0, ncases)
+        samples = samples[:: max(1, len(samples) // 4)][:4]
     cov = {"states": stats["distinct"] + gst["distinct"], "transitions": stats["generated"] + gst["generated"],
-           "traces_validated_against_impl": len(cases),
-           "samples": [{"circuit": c["key"], "nq": c["nq"], "verdict": verdicts[c["id"]]} for c in cases[:: max(1, len(cases) // 4)][:4]],
-           "evaluations": len(cases), "distinct_nontrivial": nontriv,
+           "traces_validated_against_impl": ncases,
+           "samples": samples,
+           "evaluations": ncases, "distinct_nontrivial": nontriv,
            "rule": ("one case = one gate string built as a real circuit and decompiled; non-trivial = at least one section reported"
                     if pid == "C11" else
                     "one case = one gate string built as a real circuit and optimised; non-trivial = the optimiser removed at least one gate; unitaries compared exactly on every basis state by TLC (spec/QSim.tla)"),
